@@ -500,6 +500,8 @@ def run_damaged(rng, tier):
         if "(panic" in r or "(crash" in r:
             violations.append({"impl_case": line[:3000], "what": "%s: the reader panicked or crashed: %s" % (where, r[:300])})
             continue
+        if r.strip() == "(budget)":
+            continue        # the harness' recording visitor gave up (> 2M recorded elements in one value): skipped
         t = parse_crt(r)
         if t is None or t.get("open_err"):
             violations.append({"impl_case": line[:3000], "what": "%s: the (valid) header was rejected: %s" % (where, r[:300])})
